@@ -269,7 +269,7 @@ theorem firstSync_local (hsw : sys.swap = false) (hm : rq.mode = .stream) (huo :
   case h1 hpc _ => exact ⟨fun _ hp => by simp [earlyOrH4] at hp, hi.sent_head⟩
   case h2 hpc _ => exact ⟨fun _ hp => by simp [earlyOrH4] at hp, hi.sent_head⟩
   case h3 hpc _ => exact ⟨fun _ hp => by simp [earlyOrH4] at hp, hi.sent_head⟩
-  case h4poll _ hne => exact absurd hm hne
+  case h4poll _ hne _ => exact absurd hm hne
   case h4stream _ _ huo' => rw [huo] at huo'; cases huo'
   case h4sync hpc _ _ =>
     have hsent : b.sent = [] := hph.pre_sent (by rw [hpc]; rfl)
@@ -348,7 +348,7 @@ theorem firstSync_local (hsw : sys.swap = false) (hm : rq.mode = .stream) (huo :
     have hl : labs b = b.sent.map labR ++ labR (.sync : Resp K V R) :: b.items.map labI := by
       unfold labs; simp [hs, sndLabs, labR]
     refine ⟨fun _ _ => ?_, sent_head_snoc hi hst (by rw [hpc]; rfl) .sync ⟨_, hl⟩⟩
-    have e : labs ({ b with snd := .idle, sent := b.sent ++ [.sync] } : Sub K V R) = labs b := by
+    have e : labs ({ b with snd := .idle, armed := false, sent := b.sent ++ [.sync] } : Sub K V R) = labs b := by
       rw [hl]; unfold labs; simp [sndLabs, Sub.items, labR]
     rw [e]; exact hi.labs_head hst (by rw [hpc]; rfl)
   case sentResp r _ hs _ =>
@@ -492,7 +492,7 @@ theorem snapInv_local (hsw : sys.swap = false) (wf : sys.WF) (hm : rq.mode = .st
     case h1 hpc _ => rw [show b.registered = false from p1 (by rw [hpc]; rfl)] at hr; cases hr
     case h2 hpc _ => rw [show b.registered = false from p1 (by rw [hpc]; rfl)] at hr; cases hr
     case h3 hpc _ => rw [show b.registered = false from p1 (by rw [hpc]; rfl)] at hr; cases hr
-    case h4poll _ hne => exact absurd hm hne
+    case h4poll _ hne _ => exact absurd hm hne
     case h4stream hpc _ _ =>
       rw [show b.registered = false from p1 (by rw [hpc]; rfl)] at hr; cases hr
     case h4sync _ _ huo' => rw [huo] at huo'; cases huo'
@@ -554,7 +554,7 @@ theorem snapInv_local (hsw : sys.swap = false) (wf : sys.WF) (hm : rq.mode = .st
       · exact Or.inr (Or.inl hc)
       · exact Or.inr (Or.inr (by rw [e]; exact hc))
     case buildSync i d hs hmk =>
-      have e : labs ({ b with snd := .sendSync } : Sub K V R) = labs b := by
+      have e : labs ({ b with snd := .sendSync, armed := true } : Sub K V R) = labs b := by
         cases i <;> simp [mkResp] at hmk
         unfold labs; simp [hs, sndLabs, labI, Sub.items]
       rcases hi.covered hr k hk hw ha with hc | hc | hc
@@ -585,7 +585,7 @@ theorem snapInv_local (hsw : sys.swap = false) (wf : sys.WF) (hm : rq.mode = .st
         rw [e2]; rw [e1] at hc
         exact before_remove _ _ hne hc
     case sentSync _ hs =>
-      have e : labs ({ b with snd := .idle, sent := b.sent ++ [.sync] } : Sub K V R) = labs b := by
+      have e : labs ({ b with snd := .idle, armed := false, sent := b.sent ++ [.sync] } : Sub K V R) = labs b := by
         unfold labs; simp [hs, sndLabs, Sub.items, labR]
       rcases hi.covered hr k hk hw ha with hc | hc | hc
       · exact Or.inl hc
@@ -671,6 +671,15 @@ theorem snapInv_shared [DecidableEq T] {sys : Sys K T R} {rq : Req K T R} {sh sh
     simp only [shFire, Option.some.injEq] at h; subst h
     exact ⟨hi.pre_since, hi.reg_after, hi.since_present, hi.covered, hi.sentOK⟩
   | w1Upd k0 v =>
+    simp only [shFire, Option.ite_none_right_eq_some, Option.some.injEq] at h
+    obtain ⟨_, rfl⟩ := h
+    refine ⟨hi.pre_since, hi.reg_after, hi.since_present, ?_, hi.sentOK⟩
+    intro hr k hk hw ha
+    rcases hi.covered hr k hk hw ha with hc | hc | hc
+    · exact Or.inl hc
+    · exact Or.inr (Or.inl hc)
+    · exact Or.inr (Or.inr (by rw [labs_onShared_w1 _ _ _ _ (by intro u e; cases e)]; exact hc))
+  | w1Quiet k0 v =>
     simp only [shFire, Option.ite_none_right_eq_some, Option.some.injEq] at h
     obtain ⟨_, rfl⟩ := h
     refine ⟨hi.pre_since, hi.reg_after, hi.since_present, ?_, hi.sentOK⟩
